@@ -22,6 +22,7 @@ type HeldCfg struct {
 	MaxCases      int      `json:"maxcases"`
 	PermMax       int      `json:"permmax"` // all release orders for held sets up to this size
 	UnknownFids   bool     `json:"unknownfids"`
+	EventLoop     bool     `json:"eventloop"` // answers are delivered by one goroutine of the implementation, one after the other
 	CloseVariants bool     `json:"closevariants"`
 }
 
@@ -66,6 +67,9 @@ func (k *Case) completeExcept(held map[int]bool, max int) {
 			}
 			if st[0] == "ImplRespond" && st[2] != "ok" {
 				continue
+			}
+			if st[0] == "ImplRespond" && k.loop != nil {
+				st = []any{"ImplReturn", st[1]}
 			}
 			en = append(en, st)
 		}
@@ -157,6 +161,10 @@ func TestHeld(t *testing.T) {
 			for _, h := range pl.held {
 				held[h] = true
 			}
+			if hc.EventLoop {
+				k.StartLoop()
+				defer close(k.loop)
+			}
 			send := func(i int) bool {
 				kind := hc.Kinds[rng.Intn(len(hc.Kinds))]
 				tag := i
@@ -212,6 +220,9 @@ func TestHeld(t *testing.T) {
 			for _, h := range pl.order {
 				k.C.Wait()
 				st := []any{"ImplRespond", h, "ok"}
+				if k.loop != nil {
+					st = []any{"ImplReturn", h}
+				}
 				if k.C.find("impl", h, k.ch.Idx) == nil {
 					continue // queued behind another held request of its tag group: released later
 				}
